@@ -9,6 +9,20 @@ COMMON_TRUSTED = [
 ]
 
 PROPS = {
+    'C08': {
+        'run_vo': 'Observe/Run.vo', 'props_vo': 'Properties/C08.vo', 'level': 'proof',
+        'classes': {1: 'not-fresher-delivered', 2: 'foreign-token-hash-collision', 3: 'registration-outcome',
+                    4: 'delivered-after-end', 5: 'fresher-refused', 6: 'malformed-case'},
+        'trusted': ['hook net/observation/export_verif.go (build tag verif): shifts/reads an observation\'s lastEvent stamp and waiting flag',
+                    'reflect+unsafe read of udp/client.Conn.observationHandler in the harness (to look a key up before injecting a message)'],
+        'assumptions': ['uint32 arithmetic of ValidSequenceNumber modelled in Z with explicit mod 2^32; time.Time as unbounded Z nanoseconds, Time.Sub saturating',
+                        'one event at a time: a message is fully processed (callback returned, Observe()/Cancel() returned) before the next event; goroutine interleavings inside one event are not modelled',
+                        'C08_own_token_partial / C08_register_partial / C08_holds_partial assume that the tokens in play have distinct CRC-64 (Token.Hash); the collision class is the recorded finding F18',
+                        '128 s branch on the real objects exercised by rewinding lastEvent (verif hook), never within 250 ms of the boundary; the exact boundary is covered on the exported predicate'],
+        'level_text': 'Coq theorems (Properties/C08.v): ValidSequenceNumber equals the RFC 7641 3.4 rule for all uint32 pairs and all times (constant regenerated from the source), equals serial-number arithmetic mod 2^24, corollaries at 0 / 2^23 / 2^24-1; for every history of registrations, messages and cancellations the notifications delivered to each callback are consecutively fresher, state changes only on delivery, nothing is delivered after Cancel returned or registration failed, registration succeeds only on 2.05/2.03, deliveries carry a token with the registration\'s Token.Hash. Model tied to the code by differential execution: ~38 000 points of the exported predicate and ~1 400 histories through the real Handler/Observation over an in-memory UDP session (with and without block-wise) and directly.',
+        'level_note': 'Trusted: Coq kernel + vm_compute, the generator, the harness and its verif hook. Own-token is proved up to CRC-64 collisions of tokens (refuted instance in the file, recorded as a known finding).',
+        'explanation': 'Theorems: predicate = RFC 7641 3.4 (all uint32, all times; wrap = serial arithmetic mod 2^24), delivered subsequence pairwise fresher in any arrival history, state changes only on delivery, own token (up to Token.Hash collisions; refuted instance recorded), registration outcome by first response code, nothing after cancel/failed registration. Correspondence: bit tables of ValidSequenceNumber around 0, 2^23, 2^24-1 x time differences around 128 s; histories (permuted/duplicated/wrapping streams, several observations, responses without Observe, 2.05/2.03/4.04/5.00/... answers, cancel at every position, same-token re-registration, colliding tokens) on the real code, compared event by event.',
+    },
     'C19': {
         'run_vo': 'Block/Run.vo', 'props_vo': 'Properties/C19.vo', 'level': 'proof',
         'classes': {1: 'decoder-inside-24bit-domain', 2: 'decoder-accepts-above-24bit', 3: 'encoder-inside-domain',
